@@ -316,6 +316,38 @@ def check_header_via_web(header):
     return fails
 
 
+def check_no_accept_header():
+    """A request without any Accept header gets the default (SPARQL XML) from both frameworks."""
+    import asyncio
+    from urllib.parse import urlencode
+
+    fails = []
+    conv, graph, proc, flask_client, fast_client = service(2)
+    q = sparql("http://solo/1", "s", "inside", OWL_SAMEAS)
+    r = flask_client.get("/sparql", query_string={"query": q})
+    got = (r.status_code, (r.headers.get("Content-Type") or "").split(";")[0].strip())
+    if got != (200, DEFAULT):
+        fails.append(("accept/no-header/flask", f"GET /sparql without Accept header: {got}, expected (200, {DEFAULT!r})"))
+    if fast_client is not None:
+        out = {}
+        scope = {"type": "http", "asgi": {"version": "3.0"}, "http_version": "1.1", "method": "GET", "scheme": "http", "path": "/sparql", "raw_path": b"/sparql",
+                 "query_string": urlencode({"query": q}).encode(), "headers": [(b"host", b"testserver")], "client": ("testclient", 50000), "server": ("testserver", 80), "root_path": ""}
+
+        async def receive():
+            return {"type": "http.request", "body": b"", "more_body": False}
+
+        async def send(msg):
+            if msg["type"] == "http.response.start":
+                out["status"] = msg["status"]
+                out["headers"] = {k.decode().lower(): v.decode() for k, v in msg["headers"]}
+
+        asyncio.run(fast_client.app(scope, receive, send))
+        got = (out["status"], (out["headers"].get("content-type") or "").split(";")[0].strip())
+        if got != (200, DEFAULT):
+            fails.append(("accept/no-header/fastapi", f"GET /sparql without Accept header: {got}, expected (200, {DEFAULT!r})"))
+    return fails
+
+
 SKOS = "http://www.w3.org/2004/02/skos/core#exactMatch"
 
 
@@ -533,6 +565,8 @@ def run_unit(unit, ctx):
         for h in (None, ""):
             if handle_header(h) != DEFAULT:
                 ctx.violation("C18/accept/missing-header-does-not-default-to-xml", f"handle_header({h!r}) = {handle_header(h)!r}", {"kind": "accept-misc"})
+        for sig, msg in check_no_accept_header():
+            ctx.violation("C18/" + sig, msg, {"kind": "accept-misc"})
         ctx.count("headers")
 
 
@@ -560,6 +594,7 @@ def replay(case):
         from curies.mapping_service.utils import handle_header
 
         f = [("accept/missing-header-does-not-default-to-xml", "")] if handle_header(None) != DEFAULT or handle_header("") != DEFAULT else []
+        f += check_no_accept_header()
     return [("C18/" + s, m) for s, m in f]
 
 
